@@ -90,6 +90,10 @@ class Check:
                 kv["size"] = rng.choice([0, 1, 9, 10, 4095, 2 ** 31, 2 ** 32 + 1, 2 ** 40 + 3])
             if rng.random() < 0.4:
                 kv["blocks"] = rng.choice([0, 8, 16, 2 ** 32, 12345678])
+            if rng.random() < 0.4:
+                kv["atime"] = rng.choice([0, 86399, 951782400, 1700000000, 2147483648, rng.randrange(0, 2 ** 32)]) * 10 ** 9
+            if rng.random() < 0.4:
+                kv["btime"] = rng.choice([1, 86400, 1583020799, 1700000001, 4102444800, rng.randrange(0, 2 ** 32)]) * 10 ** 9
             if rng.random() < 0.5:
                 kv["mtime"] = rng.choice([0, 1, 86399, 86400, 951782400, 1583020799, 1700000000, 2147483647, 2147483648, 4102444800, rng.randrange(0, 2 ** 32)]) * 10 ** 9 + rng.choice([0, 999999999])
             if not kv:
@@ -242,7 +246,7 @@ class Check:
         nm = gen.node_map(world)
         if top not in nm:
             raise CaseInvalid("root missing")
-        cols = ["path", "name", "size", "uid", "gid", "user", "group", "inode", "hardlinks", "blocks", "modified", "mode", "is_symlink", "is_hidden"]
+        cols = ["path", "name", "size", "uid", "gid", "user", "group", "inode", "hardlinks", "blocks", "modified", "accessed", "created", "mode", "is_symlink", "is_hidden", "is_empty"]
         q = "select " + ", ".join(cols) + " from %s %s into list" % (top, case["mode"])
         tz = zoneinfo.ZoneInfo(case["tz"])
         viols = []
@@ -273,10 +277,17 @@ class Check:
                     "user": users.get(str(uid), ""), "group": groups.get(str(gid), ""),
                     "inode": str(ov.get("ino", st.st_ino)), "hardlinks": str(ov.get("nlink", st.st_nlink)), "blocks": str(ov.get("blocks", st.st_blocks)),
                     "modified": datetime.datetime.fromtimestamp(mt // 10 ** 9, tz).strftime("%Y-%m-%d %H:%M:%S"),
+                    "accessed": datetime.datetime.fromtimestamp(ov.get("atime", st.st_atime_ns) // 10 ** 9, tz).strftime("%Y-%m-%d %H:%M:%S"),
                     "mode": statmod.filemode(st.st_mode),
                     "is_symlink": "true" if statmod.S_ISLNK(st.st_mode) else "false",
                     "is_hidden": "true" if path.rsplit("/", 1)[-1].startswith(".") else "false",
                 }
+                if "btime" in ov:
+                    want["created"] = datetime.datetime.fromtimestamp(ov["btime"] // 10 ** 9, tz).strftime("%Y-%m-%d %H:%M:%S")
+                if statmod.S_ISDIR(st.st_mode):
+                    want["is_empty"] = "true" if not os.listdir(os.path.join(sb.root, path)) else "false"
+                elif not statmod.S_ISLNK(st.st_mode):
+                    want["is_empty"] = "true" if ov.get("size", st.st_size) == 0 else "false"
                 for k, w in want.items():
                     if got[k] != w:
                         kind = "overlay" if (k in ("size", "uid", "gid", "inode", "hardlinks", "blocks", "modified", "user", "group") and ov) else "real"
